@@ -1,5 +1,6 @@
 """
-x86-64 / IA32 subset:  push pop pushf popf lea mov(abs) and sub add call nop(marker)
+x86-64 / IA32 subset:  push pop pushf popf lea mov(abs) and sub add call nop(marker),
+                       lahf sahf setcc-al add/sub/cmp-al-imm8 (status flags through AH/AL, bit-exact)
 
 Only pointer-size operands (plus `mov r32, imm32` in 64-bit mode, which
 zero-extends).  Memory operands: [base + index*scale + disp] without a
@@ -16,6 +17,18 @@ R64 = ["rax", "rbx", "rcx", "rdx", "rsi", "rdi", "rbp", "rsp"] + ["r%d" % i for 
 R32 = ["eax", "ebx", "ecx", "edx", "esi", "edi", "ebp", "esp"]
 R32_IN_64 = dict(zip(R32, R64[:8]))
 R32_IN_64.update({"r%dd" % i: "r%d" % i for i in range(8, 16)})
+
+
+SETCC = {
+    "seto": lambda f: f >> 11 & 1,
+    "setno": lambda f: not (f >> 11 & 1),
+    "setb": lambda f: f & 1,
+    "setae": lambda f: not (f & 1),
+    "sete": lambda f: f >> 6 & 1,
+    "setne": lambda f: not (f >> 6 & 1),
+    "sets": lambda f: f >> 7 & 1,
+    "setns": lambda f: not (f >> 7 & 1),
+}
 
 
 class X86Machine(Machine):
@@ -138,6 +151,33 @@ class X86Machine(Machine):
                 # mov r32, imm32 zero-extends into the 64-bit register
                 return self.setreg(R32_IN_64[d.reg], ops[1].imm & 0xFFFFFFFF)
             return self.setreg(self.full(d), self.value(ops[1]))
+        # ---- the status flags through AH/AL (lahf / seto al ... add al, 0x7f / sahf): concrete bit semantics
+        acc = "rax" if self.bits == 64 else "eax"
+        if mn == "lahf" and not ops:
+            ah = (self.flags & 0xD5) | 0x02
+            return self.setreg(acc, (self.getreg(acc) & ~0xFF00) | (ah << 8))
+        if mn == "sahf" and not ops:
+            self.flags = (self.flags & ~0xD5) | ((self.getreg(acc) >> 8) & 0xD5)
+            return
+        if mn.startswith("set") and len(ops) == 1 and ops[0].kind == "reg" and ops[0].reg == "al" and mn in SETCC:
+            return self.setreg(acc, (self.getreg(acc) & ~0xFF) | (1 if SETCC[mn](self.flags) else 0))
+        if mn in ("add", "sub", "cmp") and len(ops) == 2 and ops[0].kind == "reg" and ops[0].reg == "al" and ops[1].kind == "imm" and ops[1].reloc is None:
+            a, b = self.getreg(acc) & 0xFF, ops[1].imm & 0xFF
+            r = (a + b) if mn == "add" else (a - b)
+            r8 = r & 0xFF
+            cf = 1 if (r > 0xFF or r < 0) else 0
+            if mn == "add":
+                of = 1 if (~(a ^ b) & (a ^ r8) & 0x80) else 0
+                af = 1 if ((a & 0xF) + (b & 0xF)) > 0xF else 0
+            else:
+                of = 1 if ((a ^ b) & (a ^ r8) & 0x80) else 0
+                af = 1 if (a & 0xF) < (b & 0xF) else 0
+            pf = 1 if bin(r8).count("1") % 2 == 0 else 0
+            st = cf | (pf << 2) | (af << 4) | ((1 if r8 == 0 else 0) << 6) | ((r8 >> 7) << 7) | (of << 11)
+            self.flags = (self.flags & ~0x8D5) | st
+            if mn != "cmp":
+                self.setreg(acc, (self.getreg(acc) & ~0xFF) | r8)
+            return
         if mn in ("and", "sub", "add") and len(ops) == 2 and ops[1].kind == "imm" and ops[1].reloc is None:
             r = self.full(ops[0])
             if ops[1].size != self.PTR:
